@@ -376,6 +376,8 @@ def _loop_common(P, st, spec, cond_fn, body_prefix=None, label=None):
         except BreakSig:
             exited = True
         if exited:
+            if spec.get("on_break"):
+                spec["on_break"](P, LocalsView(P, fr, pre))
             if spec.get("no_break"):
                 # the contract states that no iteration may cut the loop short (later elements would be skipped)
                 P.prove(f"{label}.an_iteration_never_ends_the_loop_early", False)
